@@ -107,6 +107,9 @@ mut('C07-stream-background-writer',
      "        worker = threading.Thread(target=writer, daemon=True)\n        worker.start()\n        write(package.pkg.descriptor)\n        yield package.pkg\n        for res in package:\n            yield res_writer(res)\n            lines.put('\\n')\n        lines.put(None)\n        worker.join(timeout=0.01)\n        file.close()\n"))
 mut('C14-validate-drops-unselected-call', (P + 'validate.py', "            yield from super().process_resource(res)\n", "            yield from super().process_resource()\n"))
 mut('C07-validate-selector-overwritten', (P + 'validate.py', "        self.matcher = ResourceMatcher(self.resources, dp)\n", "        self.matcher = self.resources = ResourceMatcher(self.resources, dp)\n"))
+mut('C07-join-index-built-once', (P + 'join.py', "    db_keys_usage = None\n    db = None\n", "    db_keys_usage = KVFile()\n    db = KVFile()\n"),
+    (P + 'join.py', "        nonlocal db, db_keys_usage\n        db_keys_usage = KVFile()\n        db = KVFile()\n", "        nonlocal db, db_keys_usage\n"))
+mut('C07-computed-field-args-mutated', (P + 'add_computed_field.py', "        fields = [dict(f) for f in fields]\n", "        fields = list(fields)\n"))
 
 
 def main():
